@@ -540,14 +540,19 @@ func c04NullDeletes(w *World, r *Report) {
 			r.Unk("C04/NULL-DELETES", e.fn+"/const", "-", "function not found")
 			continue
 		}
-		ok := false
+		ok, found := false, false
 		for _, c := range callInstrs(fn) {
 			if f, _ := calleeOf(c.Common()); f != nil && refBareName(f) == e.callee {
+				found = true
 				args := c.Common().Args
 				if b, isC := constBool(args[len(args)-1]); isC && b == e.want {
 					ok = true
 				}
 			}
+		}
+		if !found {
+			r.Unk("C04/NULL-DELETES", e.fn+"/const", w.Pos(fn.Pos()), e.fn+" does not call "+e.callee+" (the overlay was restructured beyond what the rule recognises): not decided")
+			continue
 		}
 		r.Check(ok, "C04/NULL-DELETES", e.fn+"/const", w.Pos(fn.Pos()), fmt.Sprintf("%s passes merge=%v", e.fn, e.want), fmt.Sprintf("%s does not pass merge=%v: nulls would be %s", e.fn, e.want, map[bool]string{false: "kept instead of deleting defaults", true: "deleted instead of kept"}[e.want]))
 	}
